@@ -812,6 +812,12 @@ func (ex *Exec) runFrame(fr *Frame) {
 				panic(abortPath{"budget", fmt.Sprintf("more than %d interpreted instructions on one path", ex.cfg.MaxSteps)})
 			}
 			ex.lastFrame, ex.lastInstr = fr, instr
+			if fr.initFrame {
+				if ex.visitInitInstr(fr, instr) == kReturn {
+					return
+				}
+				continue
+			}
 			if ex.visitInstr(fr, instr) == kReturn {
 				return
 			}
@@ -891,4 +897,29 @@ func (ex *Exec) doRecover(caller *Frame) Value {
 		}
 	}
 	return Iface{}
+}
+
+// visitInitInstr executes one instruction of a package initializer; a value
+// the engine cannot compute becomes Opaque instead of aborting the rest of
+// the initializer (its use later is reported as unsupported).
+func (ex *Exec) visitInitInstr(fr *Frame, instr ssa.Instruction) (k continuation) {
+	v, isVal := instr.(ssa.Value)
+	if !isVal {
+		return ex.visitInstr(fr, instr)
+	}
+	if _, isCall := instr.(*ssa.Call); isCall {
+		return ex.visitInstr(fr, instr)
+	}
+	defer func() {
+		if r := recover(); r != nil {
+			if a, ok := r.(abortPath); ok && a.kind == "unsupported" {
+				fr.env[v] = Opaque{"uninterpretable initializer expression"}
+				ex.res.InitFails = append(ex.res.InitFails, fmt.Sprintf("%s: %s", ex.posOf(fr, instr.Pos()), a.msg))
+				k = kNext
+				return
+			}
+			panic(r)
+		}
+	}()
+	return ex.visitInstr(fr, instr)
 }
